@@ -152,11 +152,14 @@ func (g *G) Plugins() (pipeline.Plugins, map[string]string) {
 		seen[s.Canon] = true
 		canon[s.Text] = s.Canon
 		var cfg any
-		switch g.intn("cfgform", 0, 7) {
+		switch g.intn("cfgform", 0, 8) {
 		case 0:
 			cfg = nil
 		case 1:
 			cfg = map[string]any{}
+		case 3:
+			// a non-empty list as the whole config (unusual, but the parser accepts it and it is content)
+			cfg = []any{g.Str("listcfg"), map[string]any{"from": g.Str("listcfg2")}}
 		case 2:
 			// a scalar as the whole config (falsy ones included: they are content, not "empty")
 			cfg = rapid.SampledFrom([]any{false, 0, "", true, 1, "x", 0.5}).Draw(g.T, "scalarcfg")
